@@ -149,9 +149,23 @@ def parse_rules(ck, pr, ct):
     ck.require(rx.get("k") == "construct" and rx.get("class") == "QRegularExpression", "Rule::category is not assigned a QRegularExpression")
     leaves = concat_leaves(rx["args"][0])
     strs = [const_str(x) for x in leaves]
-    okanch = len(leaves) == 3 and strs[0] == "^" and strs[2] == "$"
-    ck.ob("C15-O1", sitestr(pr, cat_asg), okanch, "category pattern is '^' + text + '$'" if okanch else "category pattern is built as %s" % [describe(x) for x in leaves], key="parseRules|category-anchors")
-    ck.ob("C15-O1", sitestr(pr, cat_asg), all(o.get("k") == "defaultarg" for o in rx["args"][1:]), "category pattern uses default options (case-sensitive)", key="parseRules|category-options")
+    okanch = len(leaves) == 3 and strs[0] in ("^", "\\A") and strs[2] == "\\z"
+    loose = len(leaves) == 3 and strs[0] in ("^", "\\A") and strs[2] in ("$", "\\Z")
+    ck.ob("C15-O1", sitestr(pr, cat_asg), okanch, "category pattern is '^' + text + '\\z' (the whole category and nothing else)" if okanch else
+          "category pattern ends in %r, which also matches in front of a final line break: rule 'app.core=false' decides the category \"app.core\\n\"" % strs[2] if loose else
+          "category pattern is built as %s" % [describe(x) for x in leaves], key="parseRules|category-anchors")
+    # options: case-sensitive, and the '.' of the translated wildcard must match every character (a category may contain a line break)
+    opts = [o for o in rx["args"][1:] if o.get("k") != "defaultarg"]
+    optnames = set()
+    for o in opts:
+        for x in walk(o):
+            if x.get("k") == "ref" and "Option" in (x.get("name") or ""):
+                optnames.add(x["name"].split("::")[-1])
+    okopt = optnames == {"DotMatchesEverythingOption"}
+    ck.ob("C15-O1", sitestr(pr, cat_asg), okopt if (okopt or not optnames or "CaseInsensitiveOption" in optnames or optnames - {"DotMatchesEverythingOption", "CaseInsensitiveOption"} == set()) else None,
+          "category pattern options: case-sensitive, '.' matches every character (a wildcard spans a line break inside a category name)" if okopt else
+          "category pattern options %s: %s" % (sorted(optnames) or "none", "'*' (translated to '.*') does not match a line break inside a category name" if "DotMatchesEverythingOption" not in optnames else "matching is not case-sensitive"),
+          key="parseRules|category-options")
     mids = [x for x in leaves if const_str(x) is None]
     if len(mids) != 1 or skip_copies(mids[0]).get("k") != "ref":
         ck.ob("C15-O1", sitestr(pr, cat_asg), None, "category text is not a single local variable")
